@@ -18,6 +18,7 @@ def todo():
         if not os.path.exists(os.path.join(os.path.dirname(mp), "patch.diff")):
             continue
         out.append((pid, var, sid))
+    out.sort(key=lambda t: (t[1] != 'A', t[0]))   # one seed per property first
     return out
 
 def work(pid, var, sid):
